@@ -329,6 +329,19 @@ def shape_scenarios(corp, tier):
                             'knobs': {'bufsize': [16, 8192][idx % 2], 'read_chunk': [3, 8192][idx % 2], 'write_chunk': [5, 8192][(idx // 2) % 2],
                                       'out_bufsize': [8, 8192][(idx // 4) % 2], 'locale': G.LOCALES[idx % 4],
                                       'stdout_encoding': 'utf-8', 'entry': ['cli.main', '__main__'][idx % 2], 'omit_r': False}})
+    # size-threshold texts as NON-first files of one invocation: a small file before (and after) a large one, so that a small
+    # output is still sitting in the stdout buffer when a large one arrives (and the other way round)
+    small = [t for t in corp if t.strip() and len(t) < 200][:7] or ['small *text*\n']
+    for i, big in enumerate(G.big_texts(corp, tier)):
+        if len(big) > 300000 and i % 2:
+            continue
+        rid = W.BUNDLED_IDS[(i * 3 + 1) % len(W.BUNDLED_IDS)]
+        for j, texts in enumerate(([small[i % len(small)], big], [small[(i + 1) % len(small)], big, small[(i + 2) % len(small)]], [big, small[i % len(small)]])):
+            idx += 1
+            out.append({'R': rid, 'texts': texts, 'names': ['f%d.md' % k for k in range(len(texts))], 'fault': None,
+                        'seed': idx, 'batch': 'shapes', 'index': idx, 'cli_only': True, 'shape': 'small_then_large',
+                        'knobs': {'bufsize': 8192, 'read_chunk': 8192, 'write_chunk': [8192, 4096, 64][j], 'out_bufsize': [8192, 8192, 512][(i + j) % 3],
+                                  'locale': 'utf-8', 'stdout_encoding': 'utf-8', 'entry': ['cli.main', '__main__'][(i + j) % 2], 'omit_r': False}})
     return out
 
 
